@@ -68,7 +68,8 @@ CHECKS = {
     "C08": ("model_checking",
             "TLC exhaustive check of PolicyCall.tla against PolicyMon.tla + replay of every exported behaviour + "
             "fault enumeration on the real code (operation exit kinds, raising callbacks at each site, exceptions "
-            "thrown into the coroutine at every suspension point) with every recorded trace judged by TLC",
+            "thrown into the coroutine at every suspension point) with every recorded trace judged by TLC; "
+            "concurrently running calls (ConcCalls.tla / ConcTrace.tla): when every call is over the breaker admits again",
             "M |= every admitted call settles exactly once; on the real code ~10^4 fault scenarios per run over 8 entry "
             "points are validated by TLC against the settlement monitor plus the direct oracle (advance the clock by "
             "recovery_timeout_s, ask for admission)",
@@ -76,7 +77,7 @@ CHECKS = {
             "5/C08"),
     "C09": ("model_checking",
             "TLC exhaustive check of PolicyCall.tla against PolicyMon.tla (one record per admitted call, by final "
-            "outcome) + replay of every exported behaviour through Policy/AsyncPolicy + TLC trace validation",
+            "outcome) + replay of every exported behaviour through Policy/AsyncPolicy + TLC trace validation; concurrently running calls that raise the very same exception object (ConcCalls.tla): each record follows the call's own outcome",
             "M |= C09 for every stop reason x both causes x call/execute x with/without retry over sequences of calls "
             "sharing a breaker; the real entry points conform to M on every exported behaviour",
             "breaker observed through a delegating subclass; classification without retry is the library's own "
